@@ -65,6 +65,11 @@ func emitEntries() []emitEntry {
 		{"lua", "dec", P + ".LuaWspGenerator).generateMainDissector", []string{"g", "p"}},
 		{"lua", "sub", P + ".LuaWspGenerator).generateSubDissector", []string{"g", "pname", "p"}},
 		{"lua", "fielddef", P + ".LuaWspGenerator).generateFieldDefinitionFromPacket", []string{"g", "mdl", "p"}},
+		{"go", "test", P + ".GoGenerator).generateNewInstance", []string{"g", "orig", "p"}},
+		{"rust", "test", P + ".RustGenerator).generateUnitTestCode", []string{"g", "p"}},
+		{"java", "test", P + ".JavaGenerator).GenerateTestMethod", []string{"g", "p"}},
+		{"python", "test", P + ".PythonGenerator).generateTestCodeForPacket", []string{"g2", "p"}},
+		{"cpp", "test", P + ".CppGenerator).generateUnitestForPacket", []string{"g2", "p"}},
 		{"go", "dispatch", P + ".GoGenerator).generateInit", []string{"g", "p", "mf"}},
 		{"java", "dispatch", P + ".JavaGenerator).GenerateMessageFactory", []string{"g", "p", "f", "mf"}},
 		{"rust", "dispatch", P + ".RustGenerator).generateMatchFieldEnumCode", []string{"g", "p"}},
@@ -87,6 +92,8 @@ func emitCells() []emitCell {
 		cs = append(cs, emitCell{Kind: "inline", Repeat: r})
 	}
 	cs = append(cs, emitCell{Kind: "match"}, emitCell{Kind: "match", LenAttr: true})
+	// a packet without fields (Lua entries only: the sub dissector of a body-less packet)
+	cs = append(cs, emitCell{Kind: "empty"})
 	// two scalar fields in one packet: the steps come in declaration order
 	cs = append(cs, emitCell{Kind: "order", Typ: "u16"})
 	// a match table whose alternatives all name one packet: dispatch must still go through the key
@@ -317,7 +324,9 @@ func (e *Engine) buildCell(s *State, c emitCell) *cellObjs {
 		e.setF(s, a, t, "CheckSumType", Sym("in.f.CheckSumType", SStr))
 		e.setF(s, o.field, fT, "Attr", e.ifaceOf(t, a)...)
 	}
-	fields = append(fields, Value{o.field})
+	if c.Kind != "empty" {
+		fields = append(fields, Value{o.field})
+	}
 	var second *Term
 	if c.Kind == "order" {
 		second = e.basicField(s, Sym("in.g.Name", SStr), "u32")
@@ -434,6 +443,8 @@ func (e *Engine) runEmit(en emitEntry, c emitCell) (run emitRun) {
 			args = append(args, Value{o.field})
 		case "mf":
 			args = append(args, Value{o.attr})
+		case "orig":
+			args = append(args, Value{Str("original")})
 		case "mdl":
 			args = append(args, Value{o.model})
 		case "pname":
